@@ -183,4 +183,5 @@ class GroundedEffect:
             )
 
         for new_value in new_values:
-            state.state_fluents[new_value.untyped_representation] = new_value
+            # storing a copy so that the state does not share the function object with this (reusable) effect.
+            state.state_fluents[new_value.untyped_representation] = new_value.copy()
